@@ -800,3 +800,7 @@ def m7_calc_dao_rechecks_against_what_is_in_the_template(S):
 
 
 OBLIGATIONS = OBLIGATIONS + [m7_calc_dao_rechecks_against_what_is_in_the_template]
+
+# ---- extended claim (session 4, after seed round 5)
+LEVEL_TEXT = LEVEL_TEXT + " m4 also covers update_uncles; m6: the cellbase carries no reward output exactly when the node's RewardVerifier demands an empty cellbase, otherwise the finalised total to the target lock; m7: calc_dao re-resolves each packaged entry against cellbase + the entries accepted before it, so a child cannot stay without its dropped parent."
+LEVEL_NOTE = LEVEL_NOTE + ' calc_dao: three packaged entries; cellbase rule: reward calculator and capacity test as environment.'
